@@ -33,6 +33,13 @@ pub fn ps_as_dyn_mut<'a, 'b>(x: &'a mut PrefixedStorage<'b>) -> (r: &'a mut dyn 
         final(x).base_view() == splice(old(x).base_view(), old(x).prefix_view(), final(r).view()),
 { x }
 
+// explicit drop of a prefixed view (rule R21, inserted before a `break` that leaves the scope of a view that another
+// match arm writes through): the held reference is released, so its prophecy is its current value.  TRUSTED (no-op).
+#[verifier::external_body]
+pub fn vx_release_ps<'b>(x: PrefixedStorage<'b>)
+    ensures x.final_base_view() == x.base_view()
+{ }
+
 //@ impl_open src/prefixed_storage/mod.rs :: Storage for PrefixedStorage
 //@ end
     closed spec fn view(&self) -> St { window(self.storage.view(), self.prefix@) }
